@@ -781,7 +781,7 @@ def _cases(tier, seed):
         geoms = [('toy', True), ('toy', False), ('bl', False), ('bl', True), ('hi', False)]
     pats = PATTERNS if thorough else PATTERNS[:5]
     tchs = ['u3', 'mixed', 'u1', 'u2'] if thorough else ['u3', 'mixed']
-    subsA = [(3, 2, 2), (1, 1, 1), (10, 10, 10)] if thorough else [(3, 2, 2)]
+    subsA = [(3, 2, 5), (1, 1, 1), (10, 10, 10)] if thorough else [(3, 2, 5)]
     for M in (1, 2, 3, 4):
         for geom, asc in geoms:
             for pattern in pats:
@@ -790,7 +790,7 @@ def _cases(tier, seed):
                         for isig, sig in enumerate(CORE):
                             for flags in (FLAGS16 if thorough or isig in (0, 2) else FLAGS4):
                                 for subs in subsA:
-                                    if subs != (3, 2, 2) and (geom != 'bl' or asc or tch != 'u3'):
+                                    if subs != (3, 2, 5) and (geom != 'bl' or asc or tch != 'u3'):
                                         continue
                                     add('A', geom, asc, pattern, M, tch, view, [sig], flags, subs)
     # Box B: every signal form x flags on a few cadences
@@ -804,7 +804,7 @@ def _cases(tier, seed):
                     for b in BPS:
                         for flags in (FLAGS16 if thorough else FLAGS4):
                             add('B', geom, asc, pattern, M, tch, view, [dict(path=p, tprof=tp, fprof=fp, bp=b)],
-                                flags, (3, 2, 2))
+                                flags, (3, 2, 5))
     # Box C: repeated injections (the fault lands in every injection of the sequence)
     other = dict(path='lin-', tprof='sine', fprof='gauss', bp='const')
     for n_inj in (2, 3):
@@ -814,7 +814,7 @@ def _cases(tier, seed):
                     for sig in CORE:
                         for flags in (FLAGS16 if thorough else FLAGS4):
                             inj = [sig, other, sig][:n_inj]
-                            add('C', 'bl', False, pattern, M, 'u3', view, inj, flags, (3, 2, 2))
+                            add('C', 'bl', False, pattern, M, 'u3', view, inj, flags, (3, 2, 5))
     return out
 
 
